@@ -205,6 +205,34 @@ def check_instant(ctx, name, us):
         V(ctx, f"instant-parse-stdlib-text:{name}", f"{name}.parse({txt!r}) -> success={r.success}", case, r.success)
 
 
+def check_instant_ns(ctx, us, deltas):
+    """Instants that differ only below the microsecond (several within one 100 ns tick), formatted back to back by the one held
+    extended_iso pattern object: each text must carry exactly that instant's nine-digit fraction (trailing zeros dropped), be read
+    by the stdlib as the instant truncated to the microsecond, and parse back to the very instant."""
+    from pyoda_time import Instant
+    p = pats()["inst_extended_iso"]
+    d = dt.datetime.min + dt.timedelta(microseconds=us)
+    a = d.replace(tzinfo=dt.timezone.utc)
+    base = Instant.from_aware_datetime(a)
+    for k in deltas:
+        i = base.plus_nanoseconds(k)
+        case = {"kind": "instant_ns", "us": us, "deltas": list(deltas)}
+        ctx.ev(); ctx.count("instant_sub_microsecond"); ctx.key(("instant-ns", k % 100 == 0, k == 0, d.microsecond == 0))
+        s = p.format(i)
+        frac = f"{d.microsecond * 1000 + k:09d}".rstrip("0")
+        want = d.strftime("%Y-%m-%dT%H:%M:%S").rjust(19, "0") + ("." + frac if frac else "") + "Z"
+        if s != want:
+            V(ctx, "instant-sub-microsecond-text", f"extended_iso.format({a!r} + {k} ns) = {s!r}; the ISO text of that instant is {want!r}", case, s, want); continue
+        try:
+            if dt.datetime.fromisoformat(s) != a:
+                V(ctx, "instant-stdlib-reads-other:extended_iso", f"{s!r} read by stdlib as {dt.datetime.fromisoformat(s)!r}, the instant truncated to the microsecond is {a!r}", case, s)
+        except ValueError as e:
+            V(ctx, "instant-stdlib-rejects:extended_iso", f"{s!r} rejected by stdlib: {e}", case, s)
+        r = p.parse(s)
+        if not r.success or r.value != i:
+            V(ctx, "instant-own-roundtrip:extended_iso", f"extended_iso.parse({s!r}) does not give back the instant (+{k} ns)", case, r.success)
+
+
 def check_offset(ctx, minutes):
     from pyoda_time import Offset
     P = pats()
@@ -461,6 +489,9 @@ def run(ctx, shard):
             check_ldt(ctx, name, pick(j)); ctx.count("ldt")
         for name in ("general", "extended_iso"):
             check_instant(ctx, name, pick(j)); ctx.count("instant")
+        if j % 4 == 0:
+            k0 = rng.randrange(0, 900, 100)
+            check_instant_ns(ctx, pick(j), rng.choice([(k0 + 20, k0 + 21, k0 + 99, k0), (0, 1, 99, 100), (999, 900, 0), (k0 + rng.randrange(100), k0 + rng.randrange(100), k0)]))
     if ctx.tier == "thorough":
         for m in range(-18 * 60, 18 * 60 + 1):
             check_offset(ctx, m); ctx.count("offset")
@@ -474,4 +505,5 @@ def replay(ctx, case):
     elif k == "time": check_time(ctx, case["sec"], case["ns"])
     elif k == "ldt": check_ldt(ctx, case["pattern"], case["us"])
     elif k == "instant": check_instant(ctx, case["pattern"], case["us"])
+    elif k == "instant_ns": check_instant_ns(ctx, case["us"], case["deltas"])
     elif k == "offset": check_offset(ctx, case["minutes"])
